@@ -1,0 +1,50 @@
+//go:build verif
+
+package nebula
+
+import (
+	"net/netip"
+
+	"github.com/gaissmai/bart"
+	"github.com/slackhq/nebula/cert"
+	"github.com/slackhq/nebula/firewall"
+)
+
+// Hooks for the verification harness (engine fwrules). Thin exports only, no behaviour.
+
+// VerifFwHost returns a HostInfo carrying what Firewall.Drop reads, filled the way the handshake fills it
+// (validatePeerCert: vpnAddrs[i] = Networks()[i].Addr(), then buildNetworks) without running a handshake.
+func VerifFwHost(c *cert.CachedCertificate, myVpnNetworksTable *bart.Lite) *HostInfo {
+	nets := c.Certificate.Networks()
+	h := &HostInfo{
+		ConnectionState: &ConnectionState{peerCert: c},
+		vpnAddrs:        make([]netip.Addr, len(nets)),
+	}
+	for i := range nets {
+		h.vpnAddrs[i] = nets[i].Addr()
+	}
+	h.buildNetworks(myVpnNetworksTable, c.Certificate)
+	return h
+}
+
+// VerifFwHostIsSimple reports whether buildNetworks took the "no BART needed" path.
+func VerifFwHostIsSimple(h *HostInfo) bool { return h.networks == nil }
+
+// VerifFwMatch exposes FirewallTable.match of the inbound or outbound table.
+func VerifFwMatch(f *Firewall, p firewall.Packet, incoming bool, c *cert.CachedCertificate, caPool *cert.CAPool) bool {
+	table := f.OutRules
+	if incoming {
+		table = f.InRules
+	}
+	return table.match(p, incoming, c, caPool)
+}
+
+// VerifFwSetDefaultLocalCIDRAny sets the field NewFirewallFromConfig sets from firewall.default_local_cidr_any.
+func VerifFwSetDefaultLocalCIDRAny(f *Firewall, v bool) { f.defaultLocalCIDRAny = v }
+
+// VerifFwClearConntrack forgets all tracked flows.
+func VerifFwClearConntrack(f *Firewall) {
+	f.Conntrack.Lock()
+	f.Conntrack.Conns = map[firewall.Packet]*conn{}
+	f.Conntrack.Unlock()
+}
